@@ -940,6 +940,12 @@ func dectotBase(c *Ctx, t *dectotTarget) {
 	for k := 0; k < 4; k++ {
 		dectotOne(c, t, msgMutate(c, det), dectotLimitFor(c, t), "bytemut")
 	}
+	// groups: balanced, mismatched, unterminated, crossed
+	for k := 0; k < 3; k++ {
+		if !dectotGroupAimed(c, t) {
+			break
+		}
+	}
 }
 
 // dectotDeep: nesting around the recursion limit, with small custom limits.
